@@ -159,28 +159,35 @@ def run(ctx):
         n = Norm()
         sx = SymEx(f)
         outs = sx.run(pb, [SYM('T'), SYM('P'), SYM('o')])
-        ok = len(outs) == 1 and not sx.aborted
-        if rep.check(ok, 'R3', 'periodic-loop-free', where(pb), 'single path', 'periodic is not a single loop-free path', 'undecidable-shape'):
-            try:
-                r = sx.deep(outs[0].st, outs[0].ret)
-                got = matrix_of(sx, outs[0].st, r, n)
-                P, o = n.atom('P'), n.atom('o')
-                e = lambda i, j: n.atom('T.0[%d,%d]' % (i, j))
+        ok = bool(outs) and not sx.aborted
+        if rep.check(ok, 'R3', 'periodic-loop-free', where(pb), '%d path(s)' % len(outs), 'periodic is not loop-free', 'undecidable-shape'):
+            P, o = n.atom('P'), n.atom('o')
+            e = lambda i, j: n.atom('T.0[%d,%d]' % (i, j))
+            bad = {'x': None, 'y': None, 'lin': None, 'shape': None}
+            for out in outs:
+                try:
+                    r = sx.deep(out.st, out.ret)
+                    got = matrix_of(sx, out.st, r, n)
+                except (NotNumeric, TypeError, KeyError) as ex:
+                    bad['shape'] = str(ex)[:80]
+                    continue
+                conds = [str(n.cond(c))[:80] for c in out.pc if c[0] == 'cond']
                 for (i, nm) in ((0, 'x'), (1, 'y')):
                     u = e(i, 2)
                     forms = [n.fn('rem', n.fn('rem', u - o, P) + P, P) + o,
                              n.fn('rem_euclid', u - o, P) + o,
                              u - P * n.fn('floor', (u - o) / P)]
-                    okw = any(got[(i, 2)].equals(fm) for fm in forms)
-                    rep.check(okw, 'R3', 'wrap-formula:%s' % nm, where(pb), 'u -> ((u - o) rem P + P) rem P + o',
-                              'the wrapped %s translation is %s, not the period-P wrap of its own coordinate about offset o'
-                              % (nm, got[(i, 2)].canon()[:160]))
-                keep = all(got[(i, j)].equals(e(i, j)) for i in range(3) for j in range(3) if (i, j) not in ((0, 2), (1, 2)))
-                rep.check(keep, 'R3', 'wrap-keeps-linear-part', where(pb), 'only the two translation entries change',
-                          'periodic changes matrix entries other than the translation')
-                rep.sample('periodic: x -> %s' % got[(0, 2)].canon()[:140])
-            except (NotNumeric, TypeError, KeyError) as ex:
-                rep.fail('R3', 'wrap-formula', where(pb), 'result is not a 3x3 transform: %s' % str(ex)[:80], 'undecidable-shape')
+                    if not any(got[(i, 2)].equals(fm) for fm in forms):
+                        bad[nm] = 'on the path with conditions %s the %s translation becomes %s' % (conds, nm, got[(i, 2)].canon()[:120])
+                if not all(got[(i, j)].equals(e(i, j)) for i in range(3) for j in range(3) if (i, j) not in ((0, 2), (1, 2))):
+                    bad['lin'] = 'a path changes matrix entries other than the translation'
+            for nm in ('x', 'y'):
+                rep.check(bad[nm] is None, 'R3', 'wrap-formula:%s' % nm, where(pb), 'on every path: u -> ((u - o) rem P + P) rem P + o',
+                          'the wrap is not the period-P wrap about offset o on every path: %s (e.g. a value exactly on the upper '
+                          'face stays outside the half-open cell)' % bad[nm])
+            rep.check(bad['lin'] is None and bad['shape'] is None, 'R3', 'wrap-keeps-linear-part', where(pb), 'only the two translation entries change',
+                      bad['lin'] or ('result is not a 3x3 transform: %s' % bad['shape']))
+            rep.sample('periodic: %d path(s), each x,y -> ((u - o) rem P + P) rem P + o' % len(outs))
     okc = False
     why = 'second map closure not found'
     if len(maps) >= 2:
